@@ -36,7 +36,57 @@ def floors(tier):
     return {"cases": 500, "nontrivial": 250, "optimize_calls": 3000, "repetitions_compared": 1000, "idempotence_compared": 400, "nested_stage_runs": 1000}
 
 
+def targeted_builders():
+    """name -> builder of a collection: the targeted collections of the plan audits, the nested / re-optimized shapes of C14 and the
+    aggregation views of C15's sessions (aggregations over a map_partitions input keep their Projection nodes)"""
+    import os
+
+    from vmon import planaudit, sessionq
+    from vmon.checks import c14
+
+    out = dict(planaudit.targeted(os.environ.get("VMON_SCRATCH")))
+    for f in c14.TARGETED:
+        out["c14" + f.__name__] = f
+    tspec = {"seed": 5, "n": 40, "index": "range", "cols": ["k", "i", "g", "u", "rid"]}
+    out.update(merge_filter_builders())
+    for v in ("agg", "agg_proj", "agg_mp", "agg_mp_proj", "agg_series"):
+        out[f"gb_{v}"] = (lambda v=v: sessionq.build_query({"t": "gb", "table": tspec, "np": 3, "by": "k", "variant": v}))
+    return out
+
+
+MF_HOWS = ["inner", "left", "right", "outer"]
+MF_PREDS = ["L&R", "R&L", "L&L", "R&R", "K&R", "R&K", "L|R", "(L&R)&K", "R&(L|K)", "~R&L"]
+
+
+def merge_filter_builders():
+    """filters over a multi-partition merge whose conjuncts come from different inputs, in every order and join direction:
+    push-down and re-merging rules of Filter and Merge must reach a fixed point"""
+    import dask_expr as dx
+    import numpy as np
+    import pandas as pd
+
+    def build(how, pred):
+        left = pd.DataFrame({"key": np.arange(30) % 6, "a": np.arange(30), "x": np.arange(30) % 4})
+        right = pd.DataFrame({"key": np.arange(12) % 8, "b": np.arange(12) * 3, "y": np.arange(12) % 5})
+        m = dx.from_pandas(left, npartitions=4).merge(dx.from_pandas(right, npartitions=3), on="key", how=how)
+        L, R, K = m.a > 2, m.b < 40, m.key > 0
+        p = {"L&R": lambda: L & R, "R&L": lambda: R & L, "L&L": lambda: L & (m.x > 0), "R&R": lambda: R & (m.y > 0), "K&R": lambda: K & R, "R&K": lambda: R & K,
+             "L|R": lambda: L | R, "(L&R)&K": lambda: (L & R) & K, "R&(L|K)": lambda: R & (L | K), "~R&L": lambda: ~R & L}[pred]()
+        return m[p]
+    return {f"mf_{how}_{pred}": (lambda how=how, pred=pred: build(how, pred)) for how in MF_HOWS for pred in MF_PREDS}
+
+
+def targeted_names():
+    from vmon import planaudit
+    from vmon.checks import c14
+    from vmon.checks.c06 import TARGET_NAMES
+
+    return sorted(TARGET_NAMES) + planaudit.sk_names() + ["c14" + f.__name__ for f in c14.TARGETED] + [f"gb_{v}" for v in ("agg", "agg_proj", "agg_mp", "agg_mp_proj", "agg_series")] + [f"mf_{how}_{pred}" for how in MF_HOWS for pred in MF_PREDS]
+
+
 def cases(tier, seed):
+    for name in targeted_names():
+        yield {"targeted_name": name}
     profiles = ["default", "projection", "filter", "structure", "blockwise", "default"]
     for i in range(CONFIG[tier]["programs"]):
         yield {"gen": [seed, i], "profile": profiles[i % len(profiles)]}
@@ -48,13 +98,25 @@ def setup_worker(tier, seed):
 
 
 def run_case(case):
+    if "targeted_name" in case:
+        tb = targeted_builders()
+        if case["targeted_name"] not in tb:
+            return {"status": "undecided", "counters": {"unknown_target": 1}}
+        with dask.config.set({"dataframe.shuffle.method": "tasks"}):
+            try:
+                q = tb[case["targeted_name"]]()
+            except Exception:
+                return {"status": "refused", "counters": {"build_refused": 1}}
+            if not hasattr(q, "expr"):
+                return {"status": "undecided", "counters": {"not_a_collection": 1}}
+            return _run_case(case, None, "tasks", q=q, rebuild=tb[case["targeted_name"]])
     prog = case["prog"] if "prog" in case else progcase.gen_prog(("C19",) + tuple(case["gen"]), profile=case.get("profile", "default"))
     method = case.get("shuffle") or derive_rng("C19", shash(prog)).choice(["tasks", "disk"])
     with dask.config.set({"dataframe.shuffle.method": method}):
         return _run_case(case, prog, method)
 
 
-def _run_case(case, prog, method):
+def _run_case(case, prog, method, q=None, rebuild=None):
     from dask_expr._expr import optimize_until
 
     counters, maxes = {}, {}
@@ -63,14 +125,19 @@ def _run_case(case, prog, method):
     def bump(k, v=1):
         counters[k] = counters.get(k, 0) + v
 
-    b = progcase.Built(prog).build_sources()
-    try:
-        b.eval_pd()
-        b.eval_dx(method)
-    except Exception:
-        return {"status": "refused", "counters": {"build_refused": 1}}
-    q = b.out_dx
-    flags = {"order": b.out_pd.order, "index": b.out_pd.index}
+    if q is None:
+        b = progcase.Built(prog).build_sources()
+        try:
+            b.eval_pd()
+            b.eval_dx(method)
+        except Exception:
+            return {"status": "refused", "counters": {"build_refused": 1}}
+        q = b.out_dx
+        flags = {"order": b.out_pd.order, "index": b.out_pd.index}
+    else:
+        b = None
+        flags = {"order": False, "index": False}
+        bump("targeted_cases")
     nodes = len(list(q.expr.walk()))
     # linear in the plan size; nested optimizations started by a rule (eager quantile computes of set_index / sort_values, one per
     # such node) count against it, so the factor is generous - an exponential blow-up (2^depth) still exceeds it at depth ~12
@@ -106,6 +173,18 @@ def _run_case(case, prog, method):
     fired = sum(M.RULES.snapshot().values())
     bump("rule_firings", fired)
     if viol is None:
+        # the very first optimization of every stage against a second pass over the same (user-held) expression objects: a rule
+        # that rewrites operands of the user's expressions in place shows as a first-vs-second difference only
+        try:
+            for stage in STAGES:
+                n2 = optimize_until(q.expr, stage)._name
+                bump("first_vs_second_pass_compared")
+                if stage in names and n2 != names[stage]:
+                    viol = {"oracle": "deterministic_plan", "symptom": "plan-differs-between-repetitions", "which": "first-vs-second-pass", "stage": stage}
+                    break
+        except Exception:
+            pass
+    if viol is None:
         # determinism: same objects again, after gc, and rebuilt from scratch (fresh source objects, same data)
         try:
             o1 = q.expr.optimize()
@@ -113,14 +192,18 @@ def _run_case(case, prog, method):
             o2 = q.expr.optimize()
             gc.collect()
             o3 = q.expr.optimize()
-            b2 = progcase.Built(prog).build_sources()
-            b2.eval_dx(method)
-            o4 = b2.out_dx.expr.optimize()
+            if b is not None:
+                b2 = progcase.Built(prog).build_sources()
+                b2.eval_dx(method)
+                o4 = b2.out_dx.expr.optimize()
+            else:
+                o4 = rebuild().expr.optimize()
             bump("repetitions_compared", 3)
             # a persisted value is named after its DATA; where the program leaves the row order undefined (tied sort, shuffle)
             # two builds may legitimately persist differently ordered rows: the rebuilt plan is then not comparable
-            ns_ = len(prog["sources"])
-            persist_of_unordered = any(st_["op"] == "persist" and not b.pd_vals[st_["in"][0]].order for st_ in prog["steps"])
+            persist_of_unordered = b is not None and any(st_["op"] == "persist" and not b.pd_vals[st_["in"][0]].order for st_ in prog["steps"])
+            if b is None and "parquet" in case["targeted_name"] or b is None and "csv" in case["targeted_name"]:
+                persist_of_unordered = True  # per-process scratch datasets: a rebuilt reader may be named after another file state
             for tag, o in (("repeat", o2), ("after-gc", o3)) + ((("rebuilt", o4),) if not persist_of_unordered else ()):
                 if o._name != n1 or o.tree_repr() != t1:
                     viol = {"oracle": "deterministic_plan", "symptom": "plan-differs-between-repetitions", "which": tag, "a": t1[:600], "b": o.tree_repr()[:600]}
@@ -160,13 +243,13 @@ def _run_case(case, prog, method):
                 except Exception as ex:
                     viol = dict(progcase.exc_info(ex), oracle="nested_optimize_runs", stage="optimize(optimize(q))")
     if fired:
-        rec["nt"] = [shash(prog)]
+        rec["nt"] = [shash(prog) if prog is not None else case["targeted_name"]]
     if viol:
-        viol["ops"] = programs.program_ops(prog)
-        viol["src"] = programs.program_source(prog)
+        viol["ops"] = programs.program_ops(prog) if prog is not None else [case["targeted_name"]]
+        viol["src"] = programs.program_source(prog) if prog is not None else [f"targeted:{case['targeted_name']}"]
         rec["status"] = "violation"
         rec["viol"] = viol
-        rec["case"] = {"prog": prog, "shuffle": method}
+        rec["case"] = {"prog": prog, "shuffle": method} if prog is not None else {"targeted_name": case["targeted_name"]}
     if case.get("gen") and case["gen"][1] in (2, 9):
         rec["sample"] = {"program": programs.program_source(prog), "nodes": nodes, "budget": budget, "steps": dict(maxes)}
     return rec
